@@ -56,6 +56,8 @@ pub fn callee_g() -> Snippet {
         li(T1, 98),
         li(T2, 97),
         sw(T0, 0, SP),
+        // the callee keeps to the register convention - which says nothing about CSRs
+        inst(Inst::CsrI(CsrOp::Rw, ZERO, 64, 9)),
         li(A0, 55),
         lw(RA, 4, SP),
         addi(SP, SP, 8),
@@ -307,6 +309,7 @@ pub fn csr_alphabet() -> Vec<Snippet> {
         vec![inst(Inst::Load(LOp::Lb, T2, T0, 0))],
         vec![inst(Inst::Store(SOp::Sb, T1, T0, 1))],
         vec![inst(Inst::La(T0, "D".into())), inst(Inst::Csr(CsrOp::Rw, ZERO, CSR, T0))],
+        vec![call("g")],
     ]
 }
 
